@@ -570,16 +570,28 @@ func c04r3(c *Ctx) {
 			if b, isConst := constBool(r0); isConst && b {
 				// shape C: stop-at-first-unfinished loop
 				if sb, _ := p.c04CheckStopLoop(fn, cv, loop); len(sb) > 0 {
+					// … or a constant returned under a test of an every-object-done flag
+					if p.c04FlagShape(r0, rc.Facts, cv, loop) == "" {
+						shapes["flag"] = true
+						continue
+					}
 					bad = append(bad, "constant done at "+at+" but "+pfJoin(sb))
 				}
 				shapes["stop-loop"] = true
 				continue
 			}
-			if why := p.c04CounterShape(r0, cv, loop, phaseParam); why != "" {
-				bad = append(bad, "done value at "+at+": "+why)
+			why := p.c04CounterShape(r0, cv, loop, phaseParam)
+			if why == "" {
+				shapes["counter"] = true
 				continue
 			}
-			shapes["counter"] = true
+			if _, isCmp := r0.(*ssa.BinOp); !isCmp {
+				if why = p.c04FlagShape(r0, rc.Facts, cv, loop); why == "" {
+					shapes["flag"] = true
+					continue
+				}
+			}
+			bad = append(bad, "done value at "+at+": "+why)
 		}
 		if len(bad) > 0 {
 			o.Fail("%s", pfJoin(bad))
@@ -658,6 +670,151 @@ func (p *Program) c04CounterShape(v ssa.Value, cv *ssa.Call, loop *Loop, phasePa
 	return ""
 }
 
+// c04StripNot removes negations: v == NOT^k(x); even reports whether k is even.
+func c04StripNot(v ssa.Value) (x ssa.Value, even bool) {
+	even = true
+	for {
+		v = stripConv(v)
+		u, ok := v.(*ssa.UnOp)
+		if !ok || u.Op != token.NOT {
+			return v, even
+		}
+		v, even = u.X, !even
+	}
+}
+
+// c04FlagShape: the returned value v (evaluated after the object loop under the facts fs) can be
+// true only if every executed iteration reported done with a nil error, by way of a boolean flag
+// carried by the loop (`allDone := true; for … { if !done { allDone = false } }; return allDone`,
+// its negated twin `pending`, `allDone = allDone && done`, or a constant returned under a test of
+// the flag). Proved as a loop invariant "flag == pol ⇒ every iteration so far reported done":
+//
+//   - v == true implies flag == pol (v is the flag / its negation, or the facts say flag == pol);
+//   - before the first iteration any value will do (no object has been visited);
+//   - over every back edge the new flag value equals pol only if the old one did AND the iteration's
+//     call reported done AND its error is nil, all judged from the facts of that edge; an iteration
+//     that can reach the back edge without running the call breaks the invariant.
+//
+// Returns "" when proved, otherwise what is missing.
+func (p *Program) c04FlagShape(v ssa.Value, fs []Fact, cv *ssa.Call, loop *Loop) string {
+	var flags []*ssa.Phi
+	for _, in := range loop.Head.Instrs {
+		ph, ok := in.(*ssa.Phi)
+		if !ok {
+			break
+		}
+		if bt, isB := ph.Type().Underlying().(*types.Basic); isB && bt.Info()&types.IsBoolean != 0 {
+			flags = append(flags, ph)
+		}
+	}
+	if len(flags) == 0 {
+		return "not derived from a counter or flag carried by the object loop (" + p.describe(v) + ")"
+	}
+	x, even := c04StripNot(v)
+	iter := pfIterRegion(cv, loop.Head)
+	why := ""
+	for _, flag := range flags {
+		var pol bool
+		switch {
+		case x == ssa.Value(flag):
+			pol = even
+		case p.boolFromFacts(fs, flag) != unknownTri:
+			if c, isC := constBool(x); !isC || c != even {
+				// a value other than the constant true: not decided here
+				why = "the returned value " + p.describe(v) + " is neither the loop's flag nor a constant under a test of it"
+				continue
+			}
+			pol = p.boolFromFacts(fs, flag) == yesTri
+		default:
+			if why == "" {
+				why = "the returned value " + p.describe(v) + " is not tied to the flag " + p.describe(flag) + " of the object loop"
+			}
+			continue
+		}
+		w := p.c04FlagInvariant(flag, pol, cv, loop, iter)
+		if w == "" {
+			return ""
+		}
+		why = w
+	}
+	return why
+}
+
+func (p *Program) c04FlagInvariant(flag *ssa.Phi, pol bool, cv *ssa.Call, loop *Loop, iter map[*ssa.BasicBlock]bool) string {
+	tri2 := func(b bool) tri {
+		if b {
+			return yesTri
+		}
+		return noTri
+	}
+	// sound: under fs, e == want implies old flag == pol ∧ done ∧ err == nil
+	var sound func(e ssa.Value, want bool, fs []Fact, depth int) string
+	sound = func(e ssa.Value, want bool, fs []Fact, depth int) string {
+		if pfDeadByFacts(fs) {
+			return ""
+		}
+		x, even := c04StripNot(e)
+		if !even {
+			want = !want
+		}
+		if c, isC := constBool(x); isC && c != want {
+			return ""
+		}
+		if t := p.boolFromFacts(fs, x); t != unknownTri && t != tri2(want) {
+			return ""
+		}
+		needOld, needDone := true, true
+		switch {
+		case x == ssa.Value(flag):
+			if want != pol {
+				return "the flag is inverted at " + p.IPos(flag)
+			}
+			needOld = false
+		case p.pfIsResultOf(x, cv, 0) || p.c04Carries(x, cv, 0, iter, 0):
+			if !want {
+				return "the flag takes the value that means every object is done when the object reported not-done"
+			}
+			needDone = false
+		default:
+			if _, isC := constBool(x); isC {
+				break
+			}
+			if ph, isPhi := x.(*ssa.Phi); isPhi && ph.Block() != loop.Head && loop.Body[ph.Block()] && depth < 6 {
+				for i, pr := range ph.Block().Preds {
+					efs := append(append([]Fact{}, p.FactsOnEdge(pr, ph.Block())...), fs...)
+					if w := sound(ph.Edges[i], want, efs, depth+1); w != "" {
+						return w
+					}
+				}
+				return ""
+			}
+			return "the flag is updated with " + p.describe(e) + ", which is not recognised"
+		}
+		if needOld && p.boolFromFacts(fs, flag) != tri2(pol) {
+			return "the flag is set to the every-object-done value at " + p.describe(e) + " although an earlier object may have cleared it"
+		}
+		if needDone && p.c04BoolResult(fs, cv, 0, iter) != yesTri {
+			return "the flag keeps/gets the every-object-done value without the object having reported done"
+		}
+		if p.c04ErrOfCall(fs, cv, iter) != yesTri {
+			return "the flag keeps/gets the every-object-done value without the error being known nil"
+		}
+		return ""
+	}
+	for i, pred := range loop.Head.Preds {
+		if !loop.Body[pred] {
+			continue // before the first iteration: nothing visited yet
+		}
+		if !iter[pred] || !cv.Block().Dominates(pred) {
+			return fmt.Sprintf("the iteration can reach the back edge from block %d (%s) without tearing down its object", pred.Index, p.blockPos(pred))
+		}
+		if w := sound(flag.Edges[i], pol, p.FactsOnEdge(pred, loop.Head), 0); w != "" {
+			return fmt.Sprintf("back edge from block %d (%s): %s", pred.Index, p.blockPos(pred), w)
+		}
+	}
+	return ""
+}
+
 // ---------------------------------------------------------------------------------------------
 // R4 / R5: "done only if justified"
 
@@ -677,13 +834,24 @@ func (p *Program) c04IsNotFoundOf(fs []Fact, call *ssa.Call) bool {
 	return ok
 }
 
-func (p *Program) c04CheckDoneReturns(o *Obligation, fn *ssa.Function, justs []c04Justification, del *ssa.Call) {
+// dels: the delete call(s) of the object — several when the code after a merged helper was copied
+// per helper return (tail duplication); every copy is the same statement of the source.
+func (p *Program) c04CheckDoneReturns(o *Obligation, fn *ssa.Function, justs []c04Justification, dels ...*ssa.Call) {
 	var bad, found []string
 	n := 0
 	for _, rc := range p.pfReturnCases(fn) {
+		if pfDeadByFacts(rc.Facts) {
+			continue // copy of a continuation that the helper return it was made for never takes
+		}
 		at := p.IPos(rc.Ret)
 		r0 := rc.Results[0]
-		if del != nil && p.errOfCall(rc.Facts, del) == yesTri {
+		afterDelete := false
+		for _, del := range dels {
+			if del != nil && p.errOfCall(rc.Facts, del) == yesTri {
+				afterDelete = true
+			}
+		}
+		if afterDelete {
 			if !p.c04ValueFalse(rc.Facts, r0) {
 				bad = append(bad, "return at "+at+" reports done right after an error-free Delete (the object may still exist, e.g. held by a finalizer)")
 			}
@@ -801,28 +969,50 @@ func c04r5(c *Ctx) {
 			}
 		}
 		// the delete of a typed object and the read of the same object
-		var del, get *ssa.Call
+		var dels, gets []*ssa.Call
 		var obj ssa.Value
+		oneObject := true
 		for _, ws := range allWriterSites([]*ssa.Function{fn}) {
 			if ws.Verb == "Delete" {
-				del, _ = ws.Call.Instr.(*ssa.Call)
-				obj = ws.Obj
+				if del, ok := ws.Call.Instr.(*ssa.Call); ok {
+					if obj != nil && !p.sameValue(obj, ws.Obj) {
+						oneObject = false
+					}
+					dels = append(dels, del)
+					obj = ws.Obj
+				}
 			}
 		}
-		if del == nil || owner == nil {
+		if len(dels) == 0 || owner == nil {
 			o.Unknown("no Delete of the phase object / no ObjectSet accessor parameter found")
+			continue
+		}
+		if !oneObject {
+			o.Unknown("the function deletes several different objects")
 			continue
 		}
 		for _, cc := range callsIn(fn) {
 			if cv, ok := cc.Instr.(*ssa.Call); ok && isReaderGet(cc.Common) && p.sameValue(callArgs(cc.Common)[2], obj) {
-				get = cv
+				gets = append(gets, cv)
 			}
 		}
+		anyCall := func(calls []*ssa.Call, pred func(*ssa.Call) bool) bool {
+			for _, cv := range calls {
+				if pred(cv) {
+					return true
+				}
+			}
+			return false
+		}
 		justs := []c04Justification{
-			{"read of the phase object returned NotFound", func(rc ReturnCase) bool { return p.c04IsNotFoundOf(rc.Facts, get) }},
-			{"delete of the phase object returned NotFound", func(rc ReturnCase) bool { return p.c04IsNotFoundOf(rc.Facts, del) }},
+			{"read of the phase object returned NotFound", func(rc ReturnCase) bool {
+				return anyCall(gets, func(get *ssa.Call) bool { return p.c04IsNotFoundOf(rc.Facts, get) })
+			}},
+			{"delete of the phase object returned NotFound", func(rc ReturnCase) bool {
+				return anyCall(dels, func(del *ssa.Call) bool { return p.c04IsNotFoundOf(rc.Facts, del) })
+			}},
 			{"phase object is not controlled by the ObjectSet", func(rc ReturnCase) bool {
-				if get == nil || p.errOfCall(rc.Facts, get) != yesTri {
+				if !anyCall(gets, func(get *ssa.Call) bool { return p.errOfCall(rc.Facts, get) == yesTri }) {
 					return false
 				}
 				// any spelling of !metav1.IsControlledBy(obj, owner.ClientObject()); the alternatives of a
@@ -848,7 +1038,7 @@ func c04r5(c *Ctx) {
 				return p.sameValue(e, rc.Results[1])
 			}},
 		}
-		p.c04CheckDoneReturns(o, fn, justs, del)
+		p.c04CheckDoneReturns(o, fn, justs, dels...)
 	}
 }
 
